@@ -65,7 +65,7 @@ def ISet.count (s : ISet) : Nat := s.length
 structure Range where
   first : Nat
   last : Nat
-deriving Repr
+deriving Repr, DecidableEq
 
 /-- `AckedRange::has_next` -/
 def Range.hasNext (r : Range) : Bool := decide (seqCompare r.first r.last ≤ 0)
@@ -92,7 +92,7 @@ structure Tracker where
   ack : Nat          -- ack_number_
   ivs : ISet         -- acked_intervals_
   useSack : Bool     -- use_sack_
-deriving Repr
+deriving Repr, DecidableEq
 
 /-- `AckTracker()` -/
 def Tracker.default : Tracker := { ack := 0, ivs := [], useSack := false }
@@ -134,7 +134,7 @@ inductive SackOpt where
   | absent                     -- no SACK option
   | edges (e : List Nat)       -- decoded edges
   | malformed                  -- data size not a multiple of 4: `malformed_option` is thrown
-deriving Repr
+deriving Repr, DecidableEq
 
 /-- `vector<uint32_t>` converter of `PDUOption::to` (src/pdu_option.cpp `convert_vector<uint32_t>`, big endian) -/
 def decodeEdges : List UInt8 → List Nat
